@@ -1,6 +1,6 @@
 (* C16 - the ambient dependency setting is scoped, restored and isolated.  Pure data model (no reals, no axioms). *)
 From Coq Require Import List Arith Bool.
-From PUN Require Import Model.Ctx Proofs.Ctx.
+From PUN Require Import Model.Ctx Proofs.Ctx Gen.GenCtx Proofs.CtxTie.
 From PUN Require Import Base.Num Model.Pbox Model.PboxArith Gen.GenGlue Proofs.Glue.
 Import ListNotations.
 
@@ -39,7 +39,17 @@ Theorem C16_operators_read_ambient (N : Num) (steps : nat) (p_lo p_hi : N) (p q 
   gen_operator_div N steps p_lo p_hi mul_fuel p q d = pdiv N steps p_lo p_hi d p q.
 Proof. exact (operators_read_ambient N steps p_lo p_hi p q d). Qed.
 
+(* TIE: the context manager as pba/context.py has it NOW (translated on every run, Gen/GenCtx.v) is the model's step function, starts from the
+   default 'f', and restores the setting in force before the block for every history *)
+Theorem C16_manager_is_translated c e : gen_step1 c e = step1 c e /\ gen_init = cinit.
+Proof. exact (conj (gen_step1_is_model c e) gen_init_is_model). Qed.
+Theorem C16_translated_exit_restores c b d body : forallb (fun e => negb (mentions b e)) body = true ->
+  cur (snd (gen_run1 c (Enter b d :: body ++ [Exit b]))) = cur c.
+Proof. exact (gen_exit_restores c b d body). Qed.
+
 Print Assumptions C16_exit_restores.
+Print Assumptions C16_manager_is_translated.
+Print Assumptions C16_translated_exit_restores.
 Print Assumptions C16_lifo_returns.
 Print Assumptions C16_noninterference.
 Print Assumptions C16_operators_read_ambient.
